@@ -56,6 +56,7 @@ Proof.
       destruct (trig_get s2) as [[s3 ts3]|] eqn:E3; simpl; auto.
       eapply trig_get_q; [exact E3|]. eapply trig_get_q; [exact E|]. exact HQ.
     + destruct (trig_get _) as [[s2 ts]|] eqn:E; simpl; auto. eapply trig_get_q; [exact E|]. exact HQ.
+    + destruct (trig_get _) as [[s2 ts]|] eqn:E; simpl; auto. eapply trig_get_q; [exact E|]. exact HQ.
   - destruct (existsb (owns2 p t) (getres s)); simpl; auto.
     destruct (index_where (tokb2 t) (getres s)) as [i|]; simpl; auto.
     destruct (nth_error (getres s) i) as [[r it]|]; simpl; auto.
@@ -78,6 +79,7 @@ Proof.
     destruct (trig_get _) as [[s2 ts]|] eqn:E; simpl; auto.
     tp. simpl. apply trig_put_q. eapply trig_get_q; [exact E|]. exact HQ.
   - exact HQ.
+  - tp. simpl. apply trig_put_q. exact HQ.
   - destruct (Nat.leb_spec (next s) n); simpl; auto.
     unfold QInv; simpl. repeat split; auto; eapply below_mono; eauto.
 Qed.
@@ -151,6 +153,7 @@ Proof.
       apply trig_get_fields in E3. apply trig_get_fields in E.
       destruct E3 as (_ & _ & -> & _). destruct E as (_ & _ & -> & _). reflexivity.
     + destruct (trig_get _) as [[s2 ts]|] eqn:E; simpl; auto. left. rewrite (trig_get_ready _ _ _ E). reflexivity.
+    + destruct (trig_get _) as [[s2 ts]|] eqn:E; simpl; auto. left. rewrite (trig_get_ready _ _ _ E). reflexivity.
   - destruct (existsb (owns2 p t) (getres s)); simpl; auto.
     destruct (index_where (tokb2 t) (getres s)) as [i|]; simpl; auto.
     destruct (nth_error (getres s) i) as [[r it]|]; simpl; auto.
@@ -173,6 +176,7 @@ Proof.
     match goal with |- context [trig_put ?z] => destruct (trig_put_fields z) as (_ & _ & -> & _) end.
     apply trig_get_fields in E. destruct E as (_ & _ & -> & _). reflexivity.
   - auto.
+  - tp. simpl. left. rewrite trig_put_ready. reflexivity.
   - destruct (next s <=? n); simpl; auto.
 Qed.
 
@@ -290,5 +294,6 @@ Proof.
       tg HX. simpl. auto.
   - destruct (snd (fst _)); auto.
   - simpl. auto.
+  - simpl. tp. simpl. auto.
   - simpl. destruct (next s <=? n); simpl; auto.
 Qed.
